@@ -39,18 +39,7 @@ def run(tier, seed):
     check.coverage["exhaustive_model"] = dict(distinct_states=r["distinct"], transitions=r["states"], depth=r["depth"])
     # 1b. (thorough) unbounded in the number of requests: KeyIsSource + lock discipline is an inductive invariant (Apalache)
     if not quick:
-        wd = common.workdir("C15-apalache")
-        import shutil, subprocess
-        shutil.copyfile(os.path.join(common.SPEC, "RegexpCacheInd.tla"), os.path.join(wd, "RegexpCacheInd.tla"))
-        for init, length in (("Init", 0), ("IndInit", 1)):
-            try:
-                p = subprocess.run(["apalache-mc", "check", "--cinit=ConstInit", "--init=" + init, "--inv=IndInv", "--length=%d" % length, "RegexpCacheInd.tla"],
-                                   cwd=wd, stdout=subprocess.PIPE, stderr=subprocess.STDOUT, text=True, timeout=1800)
-            except (OSError, subprocess.TimeoutExpired) as e:
-                raise Inconclusive("apalache-mc did not run: %s" % e)
-            if "EXITCODE: OK" not in p.stdout:
-                raise Inconclusive("RegexpCacheInd.tla: IndInv is not inductive (%s, length %d) - specification bug\n%s" % (init, length, p.stdout[-1500:]))
-        shutil.rmtree(os.path.join(wd, "_apalache-out"), ignore_errors=True)
+        common.apalache_inductive(check, "RegexpCacheInd", cinit="ConstInit")
         check.coverage["inductive_invariant"] = "RegexpCacheInd!IndInv: Init => IndInv and IndInv /\\ Next => IndInv' discharged by Apalache 0.58 (3 goroutines, 3 patterns, unbounded requests)"
     # 2. spec -> code: TLC-generated schedules replayed through the gate hooks of rexp.go
     nproc, num = (4, 40) if quick else (12, 400)
